@@ -20,6 +20,9 @@ unsafe def main (args : List String) : IO UInt32 := do
   for (n, ci) in env.constants.map₁.toList do
     if env.getModuleIdxFor? n != some idx then continue
     if n.isInternal then continue
+    -- equation lemmas Lean generates on demand (`f.eq_1`, `f.eq_def`, …) are not statements of ours
+    let last := match n with | .str _ s => s | _ => ""
+    if last.startsWith "eq_" || last.startsWith "match_" || last.startsWith "proof_" || last == "sizeOf_spec" then continue
     match ci with
     | .thmInfo _ =>
       let (axs, _) := (collectAxioms (m := EnvM) n).run env
